@@ -43,10 +43,11 @@ def check_slice_input(out, facts, rule='R14.1'):
         if not g or not _guard_allows(g[0]):
             why.append('copy/advance not dominated by the false edge of `into.len() > self.len()`')
         sets = [e for e in p if e[0] == 'SET']
-        if len(sets) != 1 or strip(sets[0][1]) != ('self',) or sym.vstr(sets[0][2]) != 'index(self, RangeFrom::RangeFrom{0: len(into)})' or sets[0][3]:
+        # canonical sub-slice views: `&self[n..]`, `self.split_at(n).1`, ... all denote self[n..]
+        if len(sets) != 1 or strip(sets[0][1]) != ('self',) or view_str(slice_view(sets[0][2])) != 'self[len(into)..]' or sets[0][3]:
             why.append('cursor is not advanced to exactly &self[into.len()..]: %s' % [sym.tstr(s) for s in sets])
         cp = [e for e in p if e[0] == 'MUTCALL']
-        if len(cp) != 1 or cp[0][1] != 'copy_from_slice' or sym.vstr(cp[0][3][0]) != 'into' or sym.vstr(cp[0][3][1]) != 'index(self, RangeTo::RangeTo{0: len(into)})':
+        if len(cp) != 1 or cp[0][1] != 'copy_from_slice' or sym.vstr(cp[0][3][0]) != 'into' or view_str(slice_view(cp[0][3][1])) != 'self[0..len(into)]':
             why.append('bytes copied are not self[..into.len()] into `into`: %s' % [sym.tstr(c) for c in cp])
         si = p.index(sets[0]) if sets else -1
         ci = p.index(cp[0]) if cp else -1
